@@ -348,10 +348,12 @@ func (c *Collection) PullID(ctx context.Context, id string, opts ...ReadOption) 
 				return
 			}
 
+			// this stream has at most one seed value, which is therefore also its last one
+			// (change.LastSeedValue speaks of the whole collection: it is set only on the item that sorts last)
 			select {
 			case <-ctx.Done():
 				return
-			case send <- &ValueChange{ChangeTime: change.ChangeTime, Value: change.NewValue, SeedValue: change.SeedValue, LastSeedValue: change.LastSeedValue}:
+			case send <- &ValueChange{ChangeTime: change.ChangeTime, Value: change.NewValue, SeedValue: change.SeedValue, LastSeedValue: change.SeedValue}:
 			}
 		}
 	}()
